@@ -64,6 +64,8 @@ public:
 
   HashSet& operator=(const HashSet& other)
   {
+    if(this == &other)
+      return *this;
     clear();
     for(const Item* i = other._begin.item, * end = &other.endItem; i != end; i = i->next)
       append(i->key);
